@@ -103,13 +103,20 @@ impl SelectionEngine {
         let capx = getb(k, "capx");
         let base = geti(k, "base") as i32;
         let cmul = geti(k, "c") as f64 / cden;
-        let infl: i32 = if capx { 29 + self.pick(40) as i32 } else { self.pick(20) as i32 };
+        // a link under its cap may still hold a batch that would take it over: queued packets count towards the
+        // score (get_score) but not towards the cap
+        let near_cap = !capx && self.pick(4) == 0;
+        let infl: i32 = if capx { 29 + self.pick(40) as i32 } else if near_cap { 20 + self.pick(9) as i32 } else { self.pick(20) as i32 };
+        let queued: i32 = if near_cap { 29 - infl + self.pick(8) as i32 } else { 0 };
         c.in_flight_packets = infl;
         for s in 0..infl {
             c.packet_log.insert(5_000_000 + s, now - 10);
         }
-        c.window = base * (infl + 1) + (self.pick(infl as u64 + 1) as i32).min(infl);
-        if capx {
+        for s in 0..queued {
+            c.batch_sender.queue_packet(&[0u8; 32], Some(6_000_000 + s as u32), now);
+        }
+        c.window = base * (infl + queued + 1) + (self.pick((infl + queued) as u64 + 1) as i32).min(infl + queued);
+        if capx || near_cap {
             // cap = floor(1e6 * 0.2 / 8 * 1.5 / 1316) = 28 < in-flight
             c.cc_target_bps = 1_000_000;
             c.bitrate.current_bitrate_bps = (1.0 - cmul) * 1_000_000.0;
